@@ -457,6 +457,7 @@ def correspond(ctx):
     cgr_stream(ctx)
     history_stream(ctx)
     forwarding_stream(ctx)
+    iteration_order_stream(ctx, [m for m in mols if 2 <= len(m[1]._atoms) <= 30][:40 if ctx.quick else 400])
     locality_stream(ctx, [m for m in mols if 3 <= len(m[1]._atoms) <= 40][:40 if ctx.quick else 400])
     defaults_stream(ctx, [m for m in mols if 2 <= len(m[1]._atoms) <= 40][:30 if ctx.quick else 300])
 
@@ -1527,6 +1528,69 @@ def locality_stream(ctx, mols):
     if cases and any(k == 'inside' for *_, k in cases) and changed_inside == 0:
         ctx.broke('relational', 'locality/_morgan_hash_dict', 'no perturbation at distance exactly r changed an identifier of r '
                   'rounds: the locality stream is not looking at the identifiers')
+
+
+# ------------------------------------------------------------------------------------------------
+# iteration order of the intermediate sets (tie of fragments_iteration_order_free / active_bits_iteration_order_free)
+# ------------------------------------------------------------------------------------------------
+
+def iteration_order_stream(ctx, mols):
+    """CPython's set order cannot be chosen from outside, so the two loops that iterate over a set are fed the same members
+    in shuffled orders: `_fragments` over a permuted `_chains` result, the folding loop over a permuted (and repeated) hash
+    collection. Real code vs real code; the results must not change."""
+    from chython.algorithms.fingerprints.linear import LinearFingerprint
+    from chython.algorithms.fingerprints.morgan import MorganFingerprint
+    rng = ctx.rng
+    for name, mol in mols:
+        lo = rng.randint(1, 3)
+        hi = rng.randint(lo, 5)
+        nbp = rng.choice([0, 1, 2, 4])
+        length, nab = rng.choice([16, 64, 1024, 1000]), rng.choice([1, 2, 3, 4])
+        cls = type(mol)
+        try:
+            chains = sorted(mol._chains(lo, hi))
+            base_frag = sorted((k, len(v)) for k, v in mol._fragments(lo, hi).items())
+            base_lhs = sorted(mol.linear_hash_set(lo, hi, nbp))
+            base_lbs = sorted(mol.linear_bit_set(lo, hi, length, nab, nbp))
+            mhs = sorted(mol.morgan_hash_set(lo, hi))
+            base_mbs = sorted(mol.morgan_bit_set(lo, hi, length, nab))
+        except Exception as e:  # noqa
+            ctx.broke('correspondence', 'iteration-order', f'{name}: raised {type(e).__name__}')
+            continue
+        for j in range(2):
+            perm = list(chains)
+            rng.shuffle(perm)
+            lperm = list(base_lhs) + base_lhs[:3]
+            rng.shuffle(lperm)
+            mperm = list(mhs) + mhs[:3]
+            rng.shuffle(mperm)
+            owner = next(c for c in cls.__mro__ if '_chains' in c.__dict__)
+            saved = owner.__dict__['_chains']
+            try:
+                owner._chains = lambda self, a=1, b=4, _p=perm: list(_p)
+                frag = sorted((k, len(v)) for k, v in mol._fragments(lo, hi).items())
+                lhs = sorted(mol.linear_hash_set(lo, hi, nbp))
+            finally:
+                owner._chains = saved
+
+            class L(LinearFingerprint):
+                def linear_hash_set(self, *a, **k):
+                    return lperm
+
+            class M(MorganFingerprint):
+                def morgan_hash_set(self, *a, **k):
+                    return mperm
+            lbs = sorted(L().linear_bit_set(lo, hi, length, nab, nbp))
+            mbs = sorted(M().morgan_bit_set(lo, hi, length, nab))
+            ctx.count(('iter-order', j, lo, hi, nbp, length, nab, wire.mol_to_line(mol)), len(chains) > 1)
+            ctx.dist('op:iteration-order')
+            for what, a, b in (('_fragments', frag, base_frag), ('linear_hash_set', lhs, base_lhs),
+                               ('linear_bit_set', lbs, base_lbs), ('morgan_bit_set', mbs, base_mbs)):
+                if a != b:
+                    ctx.cov['disagreements_checked'] += 1
+                    ctx.broke('relational', 'iteration-order/' + what, f'{name}: {what}({lo},{hi},…) depends on the order in which '
+                              f'the intermediate set is iterated')
+                    _remember(ctx, _shrink_note('lbs', (lo, hi, length, nab, nbp), name, wire.mol_to_line(mol)), mol)
 
 
 def probe(inp):
